@@ -205,7 +205,13 @@ func writeSearchKey(enc *imapwire.Encoder, criteria *imap.SearchCriteria) {
 	}
 
 	for _, kv := range criteria.Header {
-		switch k := strings.ToUpper(kv.Key); k {
+		k := strings.ToUpper(kv.Key)
+		if !isASCII(kv.Key) {
+			// strings.ToUpper maps a few non-ASCII letters to ASCII ones
+			// (e.g. U+017F to "S")
+			k = ""
+		}
+		switch k {
 		case "BCC", "CC", "FROM", "SUBJECT", "TO":
 			encodeItem().Atom(k)
 		default:
